@@ -102,7 +102,8 @@ async def call(api, req: Dict[str, Any]):
         return await api.delete_schedule(req["id"])
     if op == "createsched":
         D = list(Days)
-        return await api.create_schedule(req["start"], req["stop"], {D[i] for i in req["days"]})
+        ds = [D[i] for i in req["days"]]
+        return await api.create_schedule(req["start"], req["stop"], set(ds) if req.get("form", "set") == "set" else ds)
     if op == "stop":
         return await api.stop()
     if op == "setpos":
@@ -134,7 +135,7 @@ def req_tokens(req: Dict[str, Any]) -> str:
         return f"delsched {C.ut(req['id'])}"
     if op == "createsched":
         d = ",".join(map(str, req["days"])) if req["days"] else "-"
-        return f"createsched {C.ut(req['start'])} {C.ut(req['stop'])} {d}"
+        return f"createsched {C.ut(req['start'])} {C.ut(req['stop'])} {req.get('form', 'set')} {d}"
     if op == "setpos":
         return f"setpos {req['pos']}"
     if op == "ctlbreeze":
